@@ -150,6 +150,11 @@ fn step(s: &dyn ShapeDyn, d: &Desc, img: &[u8], pop: &PathOp) -> StepResult {
         };
         let out = outs.into_iter().next().unwrap_or(OpOut::BadPath);
         if out == OpOut::BadPath {
+            if matches!(pop.op, Op::FlexPushDefault) {
+                // the glue has no `push_default` for this item type (e.g. arrays): the operation is not offered
+                res.outcome = "not_applicable";
+                return;
+            }
             res.viol.push((own, format!("badpath/{}", name), "the real value has no node at the path the reference has".into()));
             return;
         }
